@@ -43,3 +43,26 @@ META["C10"] = dict(
     note="Trusted: refarith.rs (u128 `%`, double-and-add for f128, Gaussian elimination for extension inverses; self-test "
          "at start). Sampling outside the lattice bands.",
 )
+META["C11"] = dict(
+    technique="executed oracles on the code's constants + accept-iff-canonical decoder monitor",
+    text="Constants are checked by running number-theoretic oracles on the values the code exports (not by comparing "
+         "with copies): primality, two-adicity, generator order, every root-of-unity order exhaustively, irreducibility of "
+         "the extension polynomials the code actually multiplies by, Frobenius as p-th power. All decoders are driven with "
+         "values at and around the modulus and type limits in every coefficient position; accept iff canonical.",
+    note="Trusted: refarith.rs and the embedded factorisations (re-verified at start).",
+)
+META["C13"] = dict(
+    technique="differential monitor against reference polynomial arithmetic",
+    text="Each helper is executed on thousands of random polynomial inputs per field (incl. zero / zero-padded vectors, x=0 "
+         "interpolation points, duplicate roots) and its output compared coefficient-wise with schoolbook reference "
+         "arithmetic over the reference field; panics inside documented preconditions are violations.",
+    note="Trusted: refarith.rs polynomial routines (Horner, schoolbook mul, long division, O(n^2) Lagrange).",
+)
+META["C14"] = dict(
+    technique="differential monitor vs element-wise definitions across builds and thread counts + TSan + Miri",
+    text="Outputs of the batch utilities are checked element by element against the reference (x*inv==1 or 0->0, "
+         "successive powers, sums) for every small length and for lengths straddling the parallel batch boundaries of "
+         "the actual thread count, in the serial build and in the concurrent build at 3 (6) thread counts; a TSan build "
+         "must report no race and Miri no UB on the uninit_vector consumers.",
+    note="Thread counts are set through RAYON_NUM_THREADS; the parallel-path predicate is derived, not hooked.",
+)
